@@ -1,7 +1,7 @@
 (* C20 — comments reach docstrings intact; whitespace clean-up never changes code meaning.
    Only statements, closed by [exact], each followed by Print Assumptions. *)
 From GV Require Import Base.Str Gen.C20Lit Model.FixWs Model.Wrap Proofs.RxLemmas Proofs.FixWs Proofs.FixWsRuns Proofs.FixWsIdem Proofs.C20Pins
-  Proofs.Words Proofs.TwWrap Proofs.Wrap Proofs.WrapWidth.
+  Proofs.Words Proofs.TwWrap Proofs.Wrap Proofs.WrapWidth Proofs.WrapFit.
 Local Open Scope nat_scope.
 
 (* T0: the pins of Proofs/C20Pins.v are boolean comparisons against Gen/C20Lit.v, evaluated by the harness on every run. *)
@@ -83,6 +83,20 @@ Proof. exact wrap_total. Qed.
 Print Assumptions C20_wrap_total.
 
 (* ---- gapic.utils.lines.wrap ---- *)
+(* words, full strength under the hypothesis that the first line fits (textwrap.wrap is then not called on it and the
+   slice is exact): nothing is dropped, duplicated or reordered *)
+Theorem C20_wrap_words_preserved_first_line_fits : forall text width offset indent out,
+  first_line_fits text width offset = true ->
+  wrap text width offset indent = Ok out -> pywords out = pywords text.
+Proof. exact wrap_words_preserved_fit. Qed.
+Print Assumptions C20_wrap_words_preserved_first_line_fits.
+
+Example C20_first_line_fits_example :
+  first_line_fits "Fetches a thing. Note:
+ the caller should then create it, and this second line is long enough to be re-flowed." 72 11 = true.
+Proof. exact first_line_fits_example. Qed.
+Print Assumptions C20_first_line_fits_example.
+
 (* PARTIAL (words): everything after the first-line slice is re-flowed without loss, duplication or reordering, for every
    input; missing: words(first) ++ words(slice) = words(text), false in general (the three _refuted lemmas) *)
 Theorem C20_wrap_words_preserved_partial : forall text width offset indent out,
@@ -126,3 +140,19 @@ Example C20_wrap_example :
             32;32;32;32;116;104;101;32;108;97;122;121;32;100;111;103;46;32;84;104;101;32;113;117;105;99;107;32;98;114;111;119;110;32;102;111;120]%N).
 Proof. exact first_line_safe_examples. Qed.
 Print Assumptions C20_wrap_example.
+
+(* non-vacuity of the textwrap theorems and of the two regex-match theorems: concrete instances of their hypotheses *)
+Example C20_textwrap_example :
+  tw_wrap 12 "  " "    " (sx [97;108;112;104;97;32;98;101;116;97;9;103;97;109;109;97;32;100;101;108;116;97;45;101;112;115;105;108;111;110;32;122;101;116;97]%N)
+    = Some (Some ["  alpha beta"; "    gamma"; "    delta-epsilon"; "    zeta"]) /\
+  sall is_pyspace "  " = true /\ sall is_pyspace "    " = true /\
+  split_chunks (munge (sx [97;9;98]%N)) = ["a"; "       "; "b"].
+Proof. vm_compute. repeat split. Qed.
+Print Assumptions C20_textwrap_example.
+
+Example C20_regex_match_examples :
+  m2 (sx [120;10;10;10;10;100;101;102;32;102]%N) = None /\
+  m2 (sx [32;10;10;9;10;100;101;102;32;102]%N) = Some (sx [10;10;10;100;101;102]%N, " f") /\
+  m3 (sx [10;10;10;32;32;32;32;32;32;32;32;121;32;122]%N) = Some (sx [10;10;32;32;32;32;32;32;32;32;121]%N, " z").
+Proof. vm_compute. repeat split. Qed.
+Print Assumptions C20_regex_match_examples.
